@@ -78,9 +78,9 @@ package helpers
 //@ loop 1
 //@   invariant.attempts_so_far 0 <= i && (i == 0 || i <= attempts) && dcalls("var:f") == i
 //@   invariant.all_failed_so_far (i == 0 ==> err == nil) && (i > 0 ==> err != nil && err == dret("var:f", i - 1, 0))
-//@   modifies calls("var:f"), calls("time.Sleep")
+//@   modifies calls("var:f")
 //@ ensures.success_means_an_attempt_succeeded[C10] result == nil && attempts > 0 ==> dcalls("var:f") >= 1 && dret("var:f", dcalls("var:f") - 1, 0) == nil
 //@ ensures.failure_is_the_last_error[C10] result != nil ==> dcalls("var:f") == attempts && result == dret("var:f", attempts - 1, 0)
 //@ ensures.no_more_than_allowed[C10] attempts > 0 ==> dcalls("var:f") <= attempts
 //@ ensures.every_failure_is_reported[C10] attempts > 0 && (forall j int :: 0 <= j && j < dcalls("var:f") ==> dret("var:f", j, 0) != nil) ==> result != nil
-//@ modifies calls("var:f"), calls("time.Sleep")
+//@ modifies calls("var:f")
